@@ -887,7 +887,7 @@ func (env *SpecEnv) unchanged(e *SExpr, args []*SExpr) string {
 	if len(args) == 0 {
 		var cs []string
 		for _, c := range sortedKeys(vc.compSort) {
-			if immutableComp(c) || c == "brk" || strings.HasPrefix(c, "G:iter:") || strings.HasPrefix(c, "L:") {
+			if immutableComp(c) || c == "brk" || strings.HasPrefix(c, "G:iter:") || strings.HasPrefix(c, "L:") || vc.scratch(c) {
 				continue
 			}
 			cs = append(cs, vc.sameBelowBrk(c, vc.get(env.mem, c), vc.get(env.old, c), vc.get(env.old, "brk")))
@@ -1030,7 +1030,7 @@ func (env *SpecEnv) modifiesOnly(args []*SExpr) string {
 	brk0 := vc.get(env.old, vc.brkComp())
 	var cs []string
 	for _, c := range sortedKeys(vc.compSort) {
-		if immutableComp(c) || c == "brk" || strings.HasPrefix(c, "G:iter:") || strings.HasPrefix(c, "L:") {
+		if immutableComp(c) || c == "brk" || strings.HasPrefix(c, "G:iter:") || strings.HasPrefix(c, "L:") || vc.scratch(c) {
 			continue
 		}
 		n, o := vc.get(env.mem, c), vc.get(env.old, c)
